@@ -13,6 +13,7 @@ import TboxModel.C09.Proofs
 import TboxModel.C09.Reframe
 import TboxModel.C09.Dispatch
 import TboxModel.C09.FileFaults
+import TboxModel.C09.FileFaultsK
 namespace Tbox.C09
 
 /-! ## (a) truncation -/
@@ -406,6 +407,295 @@ theorem C09_file_partial_write_counterexample :
     (fileRunW 100 {} [([[1, 2, 10]], [some 1, none]), ([[3, 10]], [])]).files = [[1, 2, 10, 3, 10]] := by
   decide
 
+/-! ### (f'') EVERY kernel answer from an oracle: short counts, EINTR, hard errors, failing open -/
+
+/-- with a kernel that never refuses, the oracle-driven flush is the flush of `C09_file_whole_records` -/
+theorem C09_flushK_refines_flush (max : Nat) (s : FileSt) : flushK max s {} = flush max s := by
+  obtain ⟨closed, cur, total, cache⟩ := s
+  cases cur <;> simp [flushK, flush, writeLoop]
+
+/-- **C09_file_whole_records for EVERY fault schedule.**  For every sequence of back-end batches,
+every size limit (also smaller than one record) and every answer of the kernel to every
+`write` (k of n bytes, EINTR, hard error, 0), `mkdir` and `open` (failure when a new file is due):
+* the files in creation order followed by the cached tail are byte for byte the rendered
+  records in order: nothing is dropped (what the kernel refused is RETAINED in the cache, without
+  bound, for as long as it refuses), nothing is written twice;
+* every closed file is the concatenation of a whole group of consecutive records, and the open
+  file followed by the cached tail is the concatenation of the remaining whole records: the tail
+  of a cut record can only go to the SAME file — every record lies wholly in one file;
+* a file is closed only at or above the limit, and never in the middle of a batch: an open file
+  whose batch is complete is below the limit; the counter is the size of the open file. -/
+theorem C09_file_whole_records_faults (max : Nat) (bs : List (List Bytes × FOracle)) :
+    let s := fileRunK max {} bs
+    let recs := (bs.map (·.1)).flatten
+    s.files.flatten ++ s.cache = recs.flatten ∧
+    (∃ (gc : List (List Bytes)) (gcur : List Bytes), s.closed = gc.map List.flatten ∧
+        gc.flatten ++ gcur = recs ∧ curData s ++ s.cache = gcur.flatten) ∧
+    (∀ f ∈ s.closed, max ≤ f.length) ∧
+    (∀ d, s.cur = some d → s.total = d.length ∧ (s.cache = [] → d.length < max)) := by
+  intro s recs
+  have h := fileRunK_inv max bs {} [] (kinv_init max)
+  simp only [List.nil_append] at h
+  obtain ⟨gc, gcur, hcl, hrec, hdat⟩ := h.groups
+  refine ⟨?_, ⟨gc, gcur, hcl, hrec, hdat⟩, h.closedFull, fun d hd => ⟨h.totalOk d hd, h.openBelow d hd⟩⟩
+  show (fileRunK max {} bs).files.flatten ++ (fileRunK max {} bs).cache = ((bs.map (·.1)).flatten).flatten
+  rw [files_flatten, List.append_assoc, hdat, hcl, flatten_map_flatten, ← hrec]; simp
+
+/-- … and once the cache is empty (the kernel accepted the tail) the directory satisfies the
+specification of the property: a grouping of the (non-empty) records, whole and in order,
+into files -/
+theorem C09_file_faults_on_disk (max : Nat) (bs : List (List Bytes × FOracle))
+    (hne : ∀ b ∈ bs, ∀ r ∈ b.1, r ≠ []) :
+    let s := fileRunK max {} bs
+    s.cache = [] → specFiles s.files (bs.map (·.1)).flatten := by
+  intro s hc
+  obtain ⟨_, ⟨gc, gcur, hcl, hrec, hdat⟩, _, _⟩ := C09_file_whole_records_faults max bs
+  have hdat' : curData s ++ s.cache = gcur.flatten := hdat
+  rw [hc, List.append_nil] at hdat'
+  have hcl' : s.closed = gc.map List.flatten := hcl
+  cases hcur : s.cur with
+  | some d =>
+    refine ⟨gc ++ [gcur], by simpa using hrec, ?_⟩
+    simp only [curData, hcur] at hdat'
+    simp [FileSt.files, hcur, hcl', hdat']
+  | none =>
+    simp only [curData, hcur] at hdat'
+    -- no file is open and nothing is cached: the remaining group is empty (records are non-empty)
+    have hg : gcur = [] := by
+      cases hgc : gcur with
+      | nil => rfl
+      | cons r rest =>
+        exfalso
+        have hr : r ∈ (bs.map (·.1)).flatten := by rw [← hrec, hgc]; simp
+        obtain ⟨l, hl, hrl⟩ := List.mem_flatten.mp hr
+        obtain ⟨b, hb, rfl⟩ := List.mem_map.mp hl
+        have := hne b hb r hrl
+        rw [hgc] at hdat'
+        cases r with
+        | nil => exact this rfl
+        | cons x xs => simp at hdat'
+    refine ⟨gc, by rw [← hrec, hg]; simp, ?_⟩
+    simp [FileSt.files, hcur, hcl']
+
+/-- **recovery / disable**: whatever faults happened before, one flush whose kernel answers are
+clean — the retry `onDisable()` makes after the pipe has delivered everything (patches/C09-06) —
+puts every record on disk: the cache is empty and the files hold exactly the records -/
+theorem C09_file_fault_recovery (max : Nat) (bs : List (List Bytes × FOracle)) (o : FOracle)
+    (hd : o.dirOk = true) (ho : o.openOk = true) (hw : ∀ a ∈ o.writes, a.soft = true) :
+    let s := disableK max (fileRunK max {} bs) o
+    s.cache = [] ∧ s.files.flatten = ((bs.map (·.1)).flatten).flatten := by
+  intro s
+  have hinv := disableK_inv max _ _ o (fileRunK_inv max bs {} [] (kinv_init max))
+  simp only [List.nil_append] at hinv
+  have hc : s.cache = [] := by
+    show (disableK max (fileRunK max {} bs) o).cache = []
+    unfold disableK
+    split
+    · rename_i h; exact List.isEmpty_iff.mp h
+    · exact flushK_clean max _ o hd ho hw
+  obtain ⟨gc, gcur, hcl, hrec, hdat⟩ := hinv.groups
+  refine ⟨hc, ?_⟩
+  have hdat' : curData s ++ s.cache = gcur.flatten := hdat
+  rw [hc, List.append_nil] at hdat'
+  rw [files_flatten, hdat', show s.closed = gc.map List.flatten from hcl, flatten_map_flatten, ← hrec]; simp
+
+/-- without the retry (the code as found) a record refused once stays in memory although the
+kernel would accept it now: limit 100, one record, `write` fails hard once, then `disable()` -/
+theorem C09_disable_retry_counterexample :
+    let s := fileRunK 100 {} [([[1, 2, 10]], { writes := [.err] })]
+    s.cache = [1, 2, 10] ∧ s.files.flatten = [] ∧ (disableK 100 s {}).files = [[1, 2, 10]] ∧ (disableK 100 s {}).cache = [] := by
+  decide
+
+/-- **why the early return on an unwritten tail matters** (the seeded change C09-5 drops it):
+limit 2, record `[1,2,3,10]`; `write` accepts 2 bytes, then fails hard; the next batch is written
+without fault.  Without the return the rollover check closes the file in the middle of the
+record: it is split over two files.  The code as it is keeps it whole in one file. -/
+theorem C09_file_midbatch_rollover_counterexample :
+    let o : FOracle := { writes := [.acc 2, .err] }
+    let bad := fileBatchKNoReturn 2 (fileBatchKNoReturn 2 {} ([[1, 2, 3, 10]], o)) ([[5, 10]], {})
+    let good := fileRunK 2 {} [([[1, 2, 3, 10]], o), ([[5, 10]], {})]
+    bad.files = [[1, 2], [3, 10, 5, 10]] ∧ good.files = [[1, 2, 3, 10, 5, 10]] ∧ good.cache = [] := by
+  decide
+
+/-- persistent refusal: the kernel never accepts anything (every `open` fails): nothing is on
+disk, everything is retained in order in the cache -/
+theorem C09_file_persistent_open_failure (max : Nat) (bs : List (List Bytes × FOracle))
+    (hfail : ∀ b ∈ bs, b.2.openOk = false) :
+    let s := fileRunK max {} bs
+    s.files = [] ∧ s.cache = ((bs.map (·.1)).flatten).flatten := by
+  intro s
+  have key : ∀ (bs : List (List Bytes × FOracle)) (c : Bytes), (∀ b ∈ bs, b.2.openOk = false) →
+      fileRunK max { cache := c } bs = { cache := c ++ ((bs.map (·.1)).flatten).flatten } := by
+    intro bs
+    induction bs with
+    | nil => intro c _; simp [fileRunK]
+    | cons b bs ih =>
+      intro c h
+      have hb := h b (by simp)
+      have hrest : ∀ b' ∈ bs, b'.2.openOk = false := fun b' hb' => h b' (by simp [hb'])
+      have hstep : fileBatchK max { cache := c } b = { cache := c ++ b.1.flatten } := by
+        unfold fileBatchK
+        by_cases he : b.1 = []
+        · simp [he]
+        · have : b.1.isEmpty = false := by cases hh : b.1 <;> simp_all
+          simp [this, flushK, hb]
+      have := ih (c ++ b.1.flatten) hrest
+      simp only [fileRunK, List.foldl_cons] at this ⊢
+      rw [hstep, this]; simp
+  have := key bs [] hfail
+  simp only [List.nil_append] at this
+  show (fileRunK max {} bs).files = [] ∧ (fileRunK max {} bs).cache = _
+  rw [this]; simp [FileSt.files]
+
+/-- the trace acceptor replays the recorded system calls through `flushKLen`; it is exactly the
+length image of the byte-level `flushK` the theorems above are about -/
+theorem C09_flushK_len (max : Nat) (s : FileSt) (o : FOracle) :
+    (flushK max s o).len = flushKLen max s.len o := flushK_len max s o
+
+/-! ### (g) the stdout sinks under write faults on fd 1 -/
+
+/-- `AsyncStdoutSink` (after patches/C09-05), for EVERY answer of the kernel to every `write(1, …)`:
+what reaches fd 1 is, batch by batch and in order, a PREFIX of each batch — nothing is written
+twice or out of order; only a hard error (EPIPE, EBADF, EIO: stdout is gone) drops the rest of
+that one batch.  Without a hard error (short counts, EINTR, EAGAIN on a non-blocking pipe) the
+stream is exactly the concatenation of the rendered records. -/
+theorem C09_stdout_faults (bs : List (List Bytes × List WAns)) :
+    (∃ outs : List Bytes, stdoutRun bs = outs.flatten ∧ outs.length = bs.length ∧
+        ∀ i (h : i < bs.length) (h' : i < outs.length), outs[i] <+: (bs[i]).1.flatten) ∧
+    ((∀ b ∈ bs, ∀ a ∈ b.2, a.soft = true) → stdoutRun bs = ((bs.map (·.1)).flatten).flatten) := by
+  constructor
+  · refine ⟨bs.map stdoutBatch, rfl, by simp, ?_⟩
+    intro i h h'
+    simp only [List.getElem_map, stdoutBatch]
+    split
+    · exact List.nil_prefix
+    · exact ⟨(writeLoop (bs[i]).2 (bs[i]).1.flatten).2, writeLoop_split _ _⟩
+  · intro hs
+    induction bs with
+    | nil => rfl
+    | cons b bs ih =>
+      have hb : stdoutBatch b = b.1.flatten := by
+        unfold stdoutBatch stdoutFlush
+        split
+        · rename_i he; simp [List.isEmpty_iff.mp he]
+        · rw [writeLoop_soft _ _ (hs b (by simp))]
+      have := ih (fun b' hb' => hs b' (by simp [hb']))
+      simp only [stdoutRun, List.map_cons, List.flatten_cons] at this ⊢
+      rw [hb, this]; simp
+
+/-- the code as found: ONE `write`, its result ignored.  A short count (5 of 6 bytes) cuts the
+second record and drops its end; EINTR/EAGAIN drops the whole batch. -/
+theorem C09_stdout_short_write_counterexample :
+    stdoutFlushAsFound (.acc 5) ([[1, 2, 10], [3, 4, 10]] : List Bytes).flatten = [1, 2, 10, 3, 4] ∧
+    stdoutFlushAsFound .eintr ([[1, 2, 10], [3, 4, 10]] : List Bytes).flatten = [] ∧
+    stdoutRun [([[1, 2, 10], [3, 4, 10]], [.acc 5, .eintr, .acc 9])] = [1, 2, 10, 3, 4, 10] := by
+  decide
+
+/-! ### (a') widths: `uint32_t buff_size` / `text_len`, `size_t len`, `int` result of `vsnprintf` -/
+
+/-- **the narrowed loop equals the mathematical one wherever `vsnprintf` succeeds** (after
+patches/C09-07): for every limit representable in a `size_t` and every formatted length up to
+`INT_MAX` the width-carrying loop dispatches `text_len = min L max`, flagged iff `L > max`, in at
+most 2 rounds, and every dispatched byte was formatted into the buffer — none of the conversions
+`int → size_t → uint32_t` changes a value.  When `vsnprintf` returns a negative value (encoding
+error, result longer than `INT_MAX`) the loop is left at once for the format-string fallback. -/
+theorem C09_truncate_width (L : Nat) (fail : Bool) (max : Nat) (hmax : max ≤ sizeMax) :
+    (vsnFails L fail = false →
+      ∃ r f, r ≤ 2 ∧ formatW L fail max = some (.done (min L max) (decide (max < L)) f, r) ∧ min L max ≤ f) ∧
+    (vsnFails L fail = true → formatW L fail max = some (.fallback, 1)) := by
+  constructor
+  · intro hv
+    have hL : L ≤ 2147483647 := by
+      simp [vsnFails, intMax] at hv; omega
+    simp only [sizeMax] at hmax
+    have hsl : min stackLimit max + 1 < 2 ^ 32 := by simp only [stackLimit]; omega
+    by_cases h1 : L < min stackLimit max + 1
+    · refine ⟨1, L, by omega, ?_, by omega⟩
+      have h2 : ¬ max < L := by omega
+      have h3 : min L max = L := by omega
+      have hLu : L % 2 ^ 32 = L := Nat.mod_eq_of_lt (by simp only [stackLimit] at h1; omega)
+      simp only [formatW, fmtLoopW, fmtRoundW, hv, fmtRoundWAsFound, fmtInitW, u32, Nat.mod_eq_of_lt hsl]
+      simp [vsnFails, intMax, h1, h2, h3, hLu, Nat.not_lt.mpr hL]
+      omega
+    · by_cases h2 : L ≤ max
+      · refine ⟨2, L, by omega, ?_, by omega⟩
+        have h3 : ¬ max < L := by omega
+        have h4 : min L max = L := by omega
+        have hb : (L + 1) % 2 ^ 64 % 2 ^ 32 = L + 1 := by omega
+        have hLu : L % 2 ^ 32 = L := by omega
+        simp only [formatW, fmtLoopW, fmtRoundW, hv, fmtRoundWAsFound, fmtInitW, u32, usize, Nat.mod_eq_of_lt hsl]
+        simp [vsnFails, intMax, Nat.not_lt.mpr hL, h1, h2, h3, h4, hb, hLu]
+      · refine ⟨2, max, by omega, ?_, by omega⟩
+        have h3 : max < L := by omega
+        have h4 : min L max = max := by omega
+        have hb : (max + 1) % 2 ^ 64 % 2 ^ 32 = max + 1 := by omega
+        have hmu : max % 2 ^ 32 = max := by omega
+        simp only [formatW, fmtLoopW, fmtRoundW, hv, fmtRoundWAsFound, fmtInitW, u32, usize, Nat.mod_eq_of_lt hsl]
+        simp [vsnFails, intMax, Nat.not_lt.mpr hL, h1, h2, h3, h4, hb, hmu]
+  · intro hv
+    simp [formatW, fmtLoopW, fmtRoundW, hv]
+
+theorem fmtLoopW_stuck (round : FmtStW → FmtResW) (s : FmtStW) (h : round s = .again s) :
+    ∀ fuel rounds, fmtLoopW round fuel s rounds = none := by
+  intro fuel
+  induction fuel with
+  | zero => intro r; rfl
+  | succ n ih => intro r; simp [fmtLoopW, h, ih]
+
+/-- **the code as found, negative `vsnprintf` result** (`%lc` with a character the locale cannot
+encode, or a result longer than `INT_MAX`): −1 becomes `SIZE_MAX`;
+* limit 102400 (the default): a record of 102400 bytes is dispatched as TRUNCATED although not one
+  byte of the buffer was formatted — uninitialised stack goes to every sink;
+* limit 2^32 − 1: `buff_size = max_len + 1` wraps to 0 and the retry loop never ends, whatever
+  the fuel. -/
+theorem C09_vsnprintf_negative_counterexample :
+    formatWAsFound 5 true 102400 = some (.done 102400 true 0, 2) ∧
+    formatWAsFound 2147483648 false 10 = some (.done 10 true 0, 2) ∧
+    (∀ fuel, formatWAsFound 5 true (2 ^ 32 - 1) (fuel + 1) = none) ∧
+    formatW 5 true 102400 = some (.fallback, 1) := by
+  refine ⟨by decide, by decide, ?_, by decide⟩
+  intro fuel
+  have h1 : fmtRoundWAsFound 5 true (2 ^ 32 - 1) (fmtInitW (2 ^ 32 - 1)) = .again { buffSize := 0, trunc := true } := by decide
+  have h2 : fmtRoundWAsFound 5 true (2 ^ 32 - 1) { buffSize := 0, trunc := true } = .again { buffSize := 0, trunc := true } := by decide
+  simp only [formatWAsFound, fmtLoopW, h1]
+  exact fmtLoopW_stuck _ _ h2 fuel 1
+
+/-- the `LogPuts` path: `strlen` narrows to `uint32_t` before the comparison; below 2^32 the result
+is the mathematical one; a string of 2^32 + 5 bytes is logged as 5 bytes WITHOUT the marker
+(not driven: needs a 4 GiB string) -/
+theorem C09_puts_width (L max : Nat) :
+    (L < 2 ^ 32 → putsW L max = (min L max, decide (max < L))) ∧ putsW (2 ^ 32 + 5) 10 = (5, false) := by
+  refine ⟨fun hL => ?_, by decide⟩
+  have hLu : L % 2 ^ 32 = L := Nat.mod_eq_of_lt hL
+  by_cases h : max < L
+  · have hm : max % 2 ^ 32 = max := Nat.mod_eq_of_lt (by omega)
+    have : min L max = max := by omega
+    simp [putsW, u32, hLu, h, hm, this]
+  · have : min L max = L := by omega
+    simp [putsW, u32, hLu, h, this]
+
+/-! ### (c') a channel function that logs -/
+
+/-- **re-entrant logging deadlocks**: when the thread holding the dispatch lock reaches a nested
+log call inside a channel function (and, as the lock guarantees, no other thread is inside a
+call), NO schedule makes any further step: the holder blocks on the mutex it owns and every
+other logging thread blocks behind it — the state never changes again.  (User channel functions
+are not in the property's quantifier; the library's own sinks never log under the lock.) -/
+theorem C09_reentrant_sink_deadlocks {α β : Type} (acts : β → List (RAct α β)) (s : RSys α β) (t : Nat)
+    (c : β) (rest : List (RAct α β)) (hcur : (s.threads t).cur = some (.call c :: rest))
+    (hhold : s.holder = some t) (hothers : ∀ u, u ≠ t → (s.threads u).cur = none) (sched : List Nat) :
+    rsysRun acts s sched = s := by
+  have step : ∀ u, rsysStep acts s u = s := by
+    intro u
+    by_cases hu : u = t
+    · subst hu; simp [rsysStep, hcur]
+    · have := hothers u hu
+      simp only [rsysStep, this]
+      cases (s.threads u).todo <;> simp [hhold]
+  induction sched with
+  | nil => rfl
+  | cons u us ih => simp only [rsysRun, List.foldl_cons, step u]; exact ih
+
 /-! ## non-vacuity -/
 
 /-- a toy layout: 2-byte header whose second byte is the text length -/
@@ -428,5 +718,17 @@ example : ∀ t, t < 2 → ((sysRun frontAppends true (sysInit demoProg) [0, 1, 
 example : ∀ t, ∀ r ∈ demoProg t, WF 2 toyTl r → True := fun _ _ _ _ => trivial
 example : filter ((({} : FilterCfg).setDefault 3).setModule "a" 6) 5 "a" = true ∧
           filter ((({} : FilterCfg).setDefault 3).setModule "a" 6) 5 "b" = false := by decide
+
+/-- one thread inside a call whose channel function logs: the hypotheses of the deadlock theorem -/
+example : ∃ s : RSys Nat Nat, (s.threads 0).cur = some (.call 7 :: []) ∧ s.holder = some 0 ∧ ∀ u, u ≠ 0 → (s.threads u).cur = none :=
+  ⟨{ threads := fun u => if u = 0 then { cur := some [.call 7] } else { todo := [1] }, holder := some 0 }, rfl, rfl,
+   fun u hu => by simp [hu]⟩
+example : vsnFails 2047 false = false ∧ vsnFails 2147483647 false = false ∧ vsnFails 2147483648 false = true ∧ vsnFails 3 true = true := by decide
+example : formatW 65536 false 65535 = some (.done 65535 true 65535, 2) ∧ formatW 65535 false 65536 = some (.done 65535 false 65535, 2) := by decide
+example : formatW 2147483647 false 10 = some (.done 10 true 10, 2) := by decide
+/-- short write, then ENOSPC exactly when the limit is reached, then recovery: one file, whole records -/
+example : (fileRunK 3 {} [([[1, 2, 3, 10], [4, 10]], { writes := [.acc 3, .err] }), ([[5, 10]], { openOk := false })]).files = [[1, 2, 3, 10, 4, 10, 5, 10]] := by decide
+example : (fileRunK 3 {} [([[1, 10]], { openOk := false }), ([[2, 10]], { writes := [.eintr, .acc 1, .eintr] })]).files = [[1, 10, 2, 10]] := by decide
+example : ∀ a ∈ [WAns.acc 3, WAns.eintr], a.soft = true := by decide
 
 end Tbox.C09
